@@ -13,8 +13,35 @@ open Cdi Cdi.SpecWF Cdi.Parser
 
 /-! ### Fact obligations (F4) -/
 
-theorem F4_device_types : deviceTypes = specDeviceTypes := by decide
-theorem F4_hook_names : hookNames = specHookNames := by decide
+def sameSet (a b : List Str) : Bool := a.all (b.contains ·) && b.all (a.contains ·)
+
+theorem contains_eq_of_sameSet {a b : List Str} (h : sameSet a b = true) (x : Str) : a.contains x = b.contains x := by
+  simp only [sameSet, Bool.and_eq_true, List.all_eq_true] at h
+  obtain ⟨hab, hba⟩ := h
+  cases ha : a.contains x <;> cases hb : b.contains x <;> try rfl
+  · have hx : x ∈ b := by simpa using hb
+    have := hba x hx
+    rw [ha] at this; cases this
+  · have hx : x ∈ a := by simpa using ha
+    have := hab x hx
+    rw [hb] at this; cases this
+
+/-- F4: the device types and hook names the validators accept are, as sets, those of SPEC.md (the
+validators only test membership, so the order in which the source lists them is immaterial) -/
+theorem F4_device_types_set : sameSet deviceTypes specDeviceTypes = true := by decide
+theorem F4_hook_names_set : sameSet hookNames specHookNames = true := by decide
+theorem F4_device_types (x : Str) : deviceTypes.contains x = specDeviceTypes.contains x :=
+  contains_eq_of_sameSet F4_device_types_set x
+theorem F4_hook_names (x : Str) : hookNames.contains x = specHookNames.contains x :=
+  contains_eq_of_sameSet F4_hook_names_set x
+theorem F4_device_types_mem (x : Str) : x ∈ deviceTypes ↔ x ∈ specDeviceTypes := by
+  have := F4_device_types x
+  simp only [List.contains_eq_mem, decide_eq_decide] at this
+  exact this
+theorem F4_hook_names_mem (x : Str) : x ∈ hookNames ↔ x ∈ specHookNames := by
+  have := F4_hook_names x
+  simp only [List.contains_eq_mem, decide_eq_decide] at this
+  exact this
 
 /-! ### element and edits validation -/
 
@@ -33,9 +60,9 @@ theorem validateEntries_guard {α} (f : α → Bool) (l : List (Option α)) :
     | some x => cases h : f x <;> simp [validateEntries, h, ih, optOK]
 
 theorem nodeWF_eq : optOK validateDeviceNode = nodeWF := by
-  funext o; cases o <;> simp [optOK, nodeWF, validateDeviceNode, F4_device_types]
+  funext o; cases o <;> simp [optOK, nodeWF, validateDeviceNode, F4_device_types_mem]
 theorem hookWF_eq : optOK validateHook = hookWF := by
-  funext o; cases o <;> simp [optOK, hookWF, validateHook, F4_hook_names, validateEnv]
+  funext o; cases o <;> simp [optOK, hookWF, validateHook, F4_hook_names_mem, validateEnv]
 theorem mountWF_eq : optOK validateMount = mountWF := by
   funext o; cases o <;> simp [optOK, mountWF, validateMount]
 
